@@ -201,6 +201,22 @@ def fileIdFor (fi : List Seg) (tbl : List Nat) (name : Nat) : Nat × List Nat :=
   let r := storeStr tbl name
   if fi.any (fun s => s.file == u16 r.1) then (r.2.length + 1, r.2 ++ [name]) else r
 
+/-! ### the scan of `A_FILE_INFO` as `program_file_id` performs it (parameters transcribed from the source) -/
+
+/-- `A_FILE_INFO` as the flat array of `unsigned short`s that `save_file_info` appends: `<lines> <file id>` per segment -/
+def flatFi (fi : List Seg) : List Nat := fi.flatMap fun s => [s.count, s.file]
+
+/-- `for (i = start; i < n; i += step) if (fi[i] == (T) file_id) …` over the flat array, `i` = index of the head -/
+def scanFlat (n : Nat) (id : Nat) : List Nat → Nat → Bool
+  | [], _ => false
+  | x :: xs, i =>
+    (decide (i < n ∨ (fidScanIncl = true ∧ i = n)) && decide (fidScanStart ≤ i) && decide ((i - fidScanStart) % fidScanStep = 0) &&
+      decide (x = id % fidCastMod)) || scanFlat n id xs (i + 1)
+
+/-- is file id `id` used by a segment written so far?  `n = A_FILE_INFO.current_size / sizeof (…)` entries are looked at -/
+def fileIdInUse (fi : List Seg) (id : Nat) : Bool :=
+  scanFlat (fidEntries (fidElemBytes * (flatFi fi).length)) id (flatFi fi) 0
+
 def lexStepN (s : LexN) : LexEvN → LexN
   | .nl => { s with lex := lexStep s.lex .nl }
   | .store name => { s with tbl := (storeStr s.tbl name).2 }
